@@ -21,7 +21,7 @@ PY = os.path.join(ROOT, '.venv', 'bin', 'python')
 
 def sh_env():
     env = dict(os.environ)
-    env['PYTHONPATH'] = ROOT
+    env['PYTHONPATH'] = ROOT + ((':' + os.environ['VERIF_REPO']) if os.environ.get('VERIF_REPO') else '')
     env['PYTHONHASHSEED'] = '0'
     env['PYTHONDONTWRITEBYTECODE'] = '1'
     env.setdefault('XLCALCULATOR_VERIF', '1')
